@@ -485,6 +485,63 @@ def short(v, n=160):
     return s if len(s) <= n else s[:n] + "..."
 
 
+# ---------------------------------------------------------------- deep fingerprint of the private state
+_SKIP_ATTRS = ("function", "_original_function", "_cache", "_Learner1D__missing_bounds", "loss_per_interval",
+               "loss_per_simplex", "arg_picker", "_ask_and_tell")
+
+
+def deep_fp(v, depth=0, seen=None):
+    """Canonical form of an object's whole private state (callables and the
+    caches of read-only queries left out); used only to attribute a failure
+    to a mechanism, never to decide one."""
+    seen = seen if seen is not None else {}
+    if depth > 14:
+        return "..."
+    if v is None or isinstance(v, (bool, str, int, float, np.integer, np.floating)):
+        return canon(v)
+    if isinstance(v, np.ndarray):
+        return canon(v)
+    if id(v) in seen:
+        return ("ref", seen[id(v)])
+    if isinstance(v, dict) or hasattr(v, "items") and hasattr(v, "keys"):
+        seen[id(v)] = len(seen)
+        try:
+            items = list(v.items())
+        except Exception:  # noqa: BLE001
+            items = []
+        return ("d",) + tuple(sorted(((deep_fp(k, depth + 1, seen), deep_fp(x, depth + 1, seen)) for k, x in items), key=repr))
+    if isinstance(v, (set, frozenset)) or type(v).__name__ in ("SortedSet",):
+        seen[id(v)] = len(seen)
+        return ("s",) + tuple(sorted((deep_fp(x, depth + 1, seen) for x in v), key=repr))
+    if isinstance(v, tuple):
+        return ("t",) + tuple(deep_fp(x, depth + 1, seen) for x in v)
+    if isinstance(v, list) or type(v).__name__ in ("SortedKeyList", "SortedList"):
+        seen[id(v)] = len(seen)
+        return ("t",) + tuple(deep_fp(x, depth + 1, seen) for x in v)
+    if type(v).__name__ == "Random":
+        return ("rnd", hash(v.getstate()))
+    if type(v).__name__ == "cycle":
+        return "<cycle>"
+    if callable(v) and not hasattr(v, "__dict__") or type(v).__name__ in ("function", "partial", "method", "builtin_function_or_method"):
+        return "<callable>"
+    seen[id(v)] = len(seen)
+    d = {}
+    if hasattr(v, "__dict__"):
+        d.update(v.__dict__)
+    for s in getattr(type(v), "__slots__", ()) or ():
+        if hasattr(v, s):
+            d[s] = getattr(v, s)
+    if not d:
+        return ("r", type(v).__name__)
+    return ("o", type(v).__name__) + tuple(sorted(((k, deep_fp(x, depth + 1, seen)) for k, x in d.items()
+                                                   if k not in _SKIP_ATTRS), key=lambda kv: kv[0]))
+
+
+def fp_attrs(l):
+    """{attribute: fingerprint} of a learner's private state."""
+    return {k: deep_fp(x) for k, x in l.__dict__.items() if k not in _SKIP_ATTRS}
+
+
 # ---------------------------------------------------------------- operations
 def apply_op(ad: Adapter, l, op):
     """Execute one concrete (JSON-able) op.  Returns the canonical outcome:
